@@ -17,6 +17,7 @@ def run_program_case(case, prop: str, focus_kinds=None):
         m = Machine(case["spec"], case["layout"], case.get("contraction", True), case.get("seed", 0))
     except PrepFailed as e:
         return dict(nontrivial=False, key=None, labels=["prep-failed:" + type(e.exc).__name__])
+    m.probe_remeasure = prop == "C05"
     keyparts = []
     for i, st in enumerate(case["steps"]):
         try:
@@ -32,6 +33,10 @@ def run_program_case(case, prop: str, focus_kinds=None):
                 t.site.setdefault("step_index", min(i, 3))
                 raise
             labels.append("abandoned-after-foreign:" + "+".join(t.props))
+            if prop in ("C07", "C13"):
+                # the step oracle of another property fired first; the state it left behind is still
+                # subject to this property's invariant
+                m.invariants_now(prop, dict(t.site, after_foreign=True))
             break
         except Malformed as mm:
             if prop in ("C07", "C13"):
